@@ -257,9 +257,14 @@ def init_before_publish(ctx, db, summ, rid='C02.init-before-publish'):
         if not f['nname'].endswith('::await_suspend') or f.get('lambda'):
             continue
         trig = [e for e in f.events() if e.k == 'call' and not e.get('implicit') and any(o == 'this' or o.startswith('this->') for o, _ in summ.published_by(e))]
-        def self_init(e):
+        def self_init(e, depth=2):
             c = db.get(e.get('callee_key'), e.get('callee_inst')) if e.get('callee_key') else None
-            return c is not None and any(x.k == 'call' and norm(x.get('callee')) in ('cocls::awaiter::set_handle', 'cocls::awaiter::set_resume_fn') for x in c.events())
+            if c is None:
+                return False
+            if any(x.k == 'call' and norm(x.get('callee')) in ('cocls::awaiter::set_handle', 'cocls::awaiter::set_resume_fn') for x in c.events()):
+                return True
+            # a wrapper around such a publisher (first_suspend(h) { ...; emitter::await_suspend(h); ... })
+            return depth > 0 and any(x.k == 'call' and x.get('callee_key') and summ.published_by(x) and self_init(x, depth - 1) for x in c.events())
         trig = [e for e in trig if not self_init(e)]       # a publisher that takes the handle initialises the awaiter itself
         if not trig:
             continue
